@@ -89,8 +89,8 @@ def check(ctx):
         "normalisation to rational functions."
     )
     ctx.assumptions += [
-        "not decided: that the calibration split is arithmetically valid for every (alpha, n) at or above the minimum "
-        "(known to be false at n = minimum, DESIGN.md O1); only the gate and the formulas are decided",
+        "not decided by analysis: that the calibration split is arithmetically valid for every (alpha, n) at or above the minimum "
+        "(hand proof in DESIGN.md appendix B; R6 checks that the code is the formula the proof is about)",
     ]
     ge = ctx.fn(CLIENT, "ModelClient.get_estimates")
     b = ctx.builder()
